@@ -1,4 +1,4 @@
-\* GEN_time -- generated by mkcfg.py; allocation lifetime classes, refresh, delete, expiry
+\* GEN_time -- generated by mkcfg.py; allocation lifetime classes, refresh (also with a REQUESTED-ADDRESS-FAMILY), delete, expiry
 SPECIFICATION Spec
 VIEW View
 CONSTANTS
@@ -9,7 +9,7 @@ CONSTANTS
   Fam <- MCFam
   ListenFam <- MCListenFam
   Strict = FALSE
-  ReqFams = {0}
+  ReqFams = {0, 6}
   ChanNums = {16384}
   LifeReqs <- MCLifeTime
   Txids = {"t1", "t2"}
